@@ -570,7 +570,15 @@ class ResourceScenario(ScenarioData):
             result2: bool = workinghours.onShift(sb_idx, timezone=resource_tz)
             return result2
 
-        # Default: use project's working time
+        # Default: use project's working time. A resource in a time zone of its own works the
+        # default hours at its local time (vacations and leaves were dealt with above).
+        if resource_tz and date is not None:
+            from scriptplan.core.working_hours import WorkingHours
+
+            local = WorkingHours(self.project)._convert_to_timezone(date, resource_tz)
+            if local is not None:
+                local_result: bool = self.project.defaultHoursAt(local)
+                return local_result
         result3: bool = self.project.isWorkingTime(sb_idx)
         return result3
 
